@@ -302,7 +302,18 @@ class Interp:
             outs.extend(o for o in res if o.kind != 'fall')
             if not falls:
                 return outs
-            cur = falls[0].env if len(falls) == 1 else self.merge(falls)
+            if len(falls) == 1:
+                # the only way past this statement: what it assumed stays known
+                # (after `if c: return ...` the rest of the block runs under not c)
+                cur = falls[0].env
+                if len(falls[0].cond) >= len(cond) and \
+                        falls[0].cond[:len(cond)] == tuple(cond):
+                    cond = falls[0].cond
+            else:
+                cur = self.merge(falls)
+                common = self._common(falls)
+                if len(common) >= len(cond) and common[:len(cond)] == tuple(cond):
+                    cond = common
         outs.append(Outcome('fall', cur, None, cond))
         return outs
 
